@@ -26,6 +26,9 @@ type ImageSpec struct {
 	// as an indefinite-length array (9f .. ff). Used only by checks whose statement covers every accepted
 	// input (C13, C03), not where HEAD is known to depend on the canonical size (BlockReader offsets).
 	HeaderEnc int `json:"header_enc,omitempty"`
+	// Trailer: bytes that follow the CARv2 in its source (after the index, or after the payload of an
+	// index-less one): whatever else the stream or file carries is none of the reader's business
+	Trailer int `json:"trailer,omitempty"`
 }
 
 // Layout locates structure in a built image.
@@ -159,6 +162,9 @@ func BuildImage(spec ImageSpec) *Layout {
 	if idx != nil {
 		img = append(img, make([]byte, spec.IndexPad)...)
 		img = append(img, idx...)
+	}
+	if spec.Trailer > 0 {
+		img = append(img, NewRng(uint64(977+spec.Trailer)).Bytes(spec.Trailer)...)
 	}
 	l.Image = img
 	return l
